@@ -1,221 +1,3 @@
-(* GenEquiv.v — the second tie between model and source.
-   generated/Generated.v is rewritten by the translator (harness/cmd/vtrans) from the Go source on every run. This file proves,
-   for every translated kernel, that the generated function equals the hand-written shared model the property theorems are
-   stated on, and that the generated constants equal the literals the models use. A semantic edit of one of these Go
-   kernels changes Generated.v and makes one of the lemmas below fail to compile — deterministically, no sampling.
-
-   The proofs are one generic tactic ([gen_eq]): unfold every definition of Generated.v (hint database [sidgen], emitted by
-   the translator, so new helper functions and constants are unfolded too) and the model; decide the comparisons one at a
-   time, innermost first ([Z.leb_spec], [Z.ltb_spec], [Z.eqb_spec]); close every leaf with [lia] under [f_equal]. Nothing in
-   a proof mentions a local variable, a branch or the shape of the Go code, so renamings, reordered assignments and
-   restructured but equivalent conditionals are accepted. *)
-From Coq Require Import ZArith Bool Lia.
-From SIDGen Require Import Generated.
-From SID Require Import Base Ids ZoomCore AltKeyCore.
-Open Scope Z_scope.
-
-(* ---------------------------------------------------------------------------------------------------------------- *)
-(* the generic tactic *)
-
-Ltac no_if t := lazymatch t with context [if _ then _ else _] => fail | _ => idtac end.
-
-(* beta, iota (matches on constructors: decided conditions, destructuring lets), zeta (lets), and the boolean connectives *)
-Ltac gen_red := cbv beta iota zeta delta [andb orb negb Bool.eqb fst snd].
-
-Lemma geb_spec a b : BoolSpec (b <= a) (a < b) (Z.geb a b).
-Proof. rewrite Z.geb_leb. apply Z.leb_spec. Qed.
-Lemma gtb_spec a b : BoolSpec (b < a) (a <= b) (Z.gtb a b).
-Proof. rewrite Z.gtb_ltb. apply Z.ltb_spec. Qed.
-
-(* decide one condition whose operands contain no undecided conditional (innermost first) *)
-Ltac gen_case :=
-  match goal with
-  | |- context [Z.leb ?a ?b] => no_if a; no_if b; destruct (Z.leb_spec a b)
-  | |- context [Z.ltb ?a ?b] => no_if a; no_if b; destruct (Z.ltb_spec a b)
-  | |- context [Z.geb ?a ?b] => no_if a; no_if b; destruct (geb_spec a b)
-  | |- context [Z.gtb ?a ?b] => no_if a; no_if b; destruct (gtb_spec a b)
-  | |- context [Z.eqb ?a ?b] => no_if a; no_if b; destruct (Z.eqb_spec a b)
-  | |- context [if ?c then _ else _] => is_var c; destruct c
-  end.
-
-Ltac gen_leaf :=
-  first [ reflexivity | lia | exfalso; lia | progress f_equal; gen_leaf ].
-
-(* Only where a leaf is stuck: the operations lia does not interpret (shifts, truncated division, powers) are atoms to it,
-   and two atoms whose arguments are written differently are different atoms. [gen_merge] identifies, in the goal and in
-   the decided conditions, applications of the same operation whose arguments are equal as ring expressions, and removes
-   shifts by a count that is provably (lia, under the decided conditions) 0. This accepts regrouped arithmetic and
-   conditions moved across a point where both branches agree. *)
-Lemma ashift_zero a s : s = 0 -> ashift a s = a.
-Proof. intros ->. reflexivity. Qed.
-Lemma shiftl_zero a s : s = 0 -> Z.shiftl a s = a.
-Proof. intros ->. apply Z.shiftl_0_r. Qed.
-Lemma shiftr_zero a s : s = 0 -> Z.shiftr a s = a.
-Proof. intros ->. apply Z.shiftr_0_r. Qed.
-
-Ltac differ2 a s a' s' := tryif (constr_eq a a'; constr_eq s s') then fail else idtac.
-Ltac merge_with f a s :=
-  match goal with
-  | |- context [f ?a' ?s'] => differ2 a s a' s'; replace (f a' s') with (f a s) in * by (f_equal; ring)
-  | _ : context [f ?a' ?s'] |- _ => differ2 a s a' s'; replace (f a' s') with (f a s) in * by (f_equal; ring)
-  end.
-Ltac merge_op f :=
-  repeat match goal with
-  | |- context [f ?a ?s] => merge_with f a s
-  | _ : context [f ?a ?s] |- _ => merge_with f a s
-  end.
-Ltac zero_at f lem a s :=
-  let E := fresh "E" in assert (E : s = 0) by lia; rewrite (lem a s E) in *; clear E.
-Ltac zero_op f lem :=
-  repeat match goal with
-  | |- context [f ?a ?s] => zero_at f lem a s
-  | _ : context [f ?a ?s] |- _ => zero_at f lem a s
-  end.
-Ltac merge_all := merge_op ashift; merge_op Z.shiftl; merge_op Z.shiftr; merge_op Z.quot; merge_op Z.rem; merge_op Z.pow.
-Ltac zero_all := zero_op ashift ashift_zero; zero_op Z.shiftl shiftl_zero; zero_op Z.shiftr shiftr_zero.
-(* [zero_all] is sound but only useful in a consistent context (lia proves any count to be 0 from contradictory conditions):
-   it runs after [gen_leaf] has failed on the merged goal *)
-Ltac gen_merge fuel :=
-  merge_all;
-  first [ gen_leaf | lazymatch fuel with S ?k => progress zero_all; gen_merge k end ].
-
-(* [norm] is run before every step: it may rewrite, never split. [stuck] is run on a leaf [gen_leaf] cannot close. *)
-Ltac gen_cases norm stuck :=
-  gen_red; norm;
-  first [ gen_leaf | tryif assert_succeeds gen_case then (gen_case; gen_cases norm stuck) else stuck ].
-
-(* pass 1: the shifts as atoms (Base.ashift on both sides; what the unedited source needs; fast);
-   pass 2: Base.ashift opened into Z.shiftl / Z.shiftr.
-   Atoms are merged and zero shifts removed only at stuck leaves (doing it before every step was measured: far slower). *)
-Ltac gen_solve norm :=
-  first [ solve [ gen_cases ltac:(norm) ltac:(gen_merge 4%nat) ]
-        | solve [ gen_cases ltac:(norm; unfold ashift) ltac:(gen_merge 4%nat) ] ].
-
-(* ---------------------------------------------------------------------------------------------------------------- *)
-(* result encodings: the generated functions return the Go result tuple, with `error` as a flag (true = non-nil) and the
-   values the Go code returns next to a non-nil error (all zero in these kernels) *)
-
-Definition eid_tuple (i : eid) : Z * Z * Z * Z * Z := (eh i, ex i, ey i, ev i, ef i).
-Definition enc_z (r : result Z) : Z * bool := match r with Ok a => (a, false) | Err => (0, true) end.
-Definition enc_zz (r : result (Z * Z)) : Z * Z * bool := match r with Ok (a, b) => (a, b, false) | Err => (0, 0, true) end.
-
-Lemma enc_z_inj r s : enc_z r = enc_z s -> r = s.
-Proof. destruct r, s; cbn; congruence. Qed.
-Lemma enc_zz_inj r s : enc_zz r = enc_zz s -> r = s.
-Proof. destruct r as [[a b]|], s as [[c d]|]; cbn; congruence. Qed.
-
-Ltac models_base := unfold enc_z, enc_zz, z2key, z2key_raw, z2minkey, key2z, index_exists, hzoom_minmax, vzoom_minmax, vnum,
-  check_zoom, zorigin, zbase_offset_neg.
-Ltac models_higher := unfold eid_tuple, higher, mk; cbn [eh ex ey ev ef].
-
-(* ---------------------------------------------------------------------------------------------------------------- *)
-(* functions *)
-
-(* common.CalculateArithmeticShift = Base.ashift *)
-Lemma gen_CalculateArithmeticShift_eq : forall i s, Generated.CalculateArithmeticShift i s = ashift i s.
-Proof. intros; repeat autounfold with sidgen; gen_solve ltac:(unfold ashift). Qed.
-
-(* from here on the generated shift is not unfolded ([autounfold] skips an opaque constant) but rewritten into Base.ashift *)
-Opaque Generated.CalculateArithmeticShift.
-Ltac gen_eq models :=
-  intros; repeat autounfold with sidgen; models;
-  gen_solve ltac:(rewrite ?Z.geb_leb, ?Z.gtb_ltb, ?gen_CalculateArithmeticShift_eq).
-
-(* shape.CheckZoom = Ids.check_zoom *)
-Lemma gen_CheckZoom_eq : forall z, Generated.CheckZoom z = check_zoom z.
-Proof. gen_eq models_base. Qed.
-
-(* transform.quadkeyCheckZoom, extendedSpatialIDCheckZoom: the zoom windows 1..31 x 0..35 and 0..35 x 0..35 *)
-Lemma gen_quadkeyCheckZoom_eq : forall h v,
-  Generated.quadkeyCheckZoom h v = ((1 <=? h) && (h <=? 31)) && check_zoom v.
-Proof. gen_eq models_base. Qed.
-Lemma gen_extendedSpatialIDCheckZoom_eq : forall h v,
-  Generated.extendedSpatialIDCheckZoom h v = check_zoom h && check_zoom v.
-Proof. gen_eq models_base. Qed.
-
-(* transform.validateIndexExists returns (error, ok) *)
-Lemma gen_validateIndexExists_eq : forall i z neg,
-  Generated.validateIndexExists i z neg = (negb (index_exists i z neg), index_exists i z neg).
-Proof. gen_eq models_base. Qed.
-
-(* transform.convertZToMinAltitudekey = AltKeyCore.z2minkey *)
-Lemma gen_convertZToMinAltitudekey_eq : forall f z out E O,
-  Generated.convertZToMinAltitudekey f z out E O = enc_z (z2minkey f z out E O).
-Proof. gen_eq models_base. Qed.
-
-(* transform.ConvertZToMinMaxAltitudekey = AltKeyCore.z2key *)
-Lemma gen_ConvertZToMinMaxAltitudekey_eq : forall f z out E O,
-  Generated.ConvertZToMinMaxAltitudekey f z out E O = enc_zz (z2key f z out E O).
-Proof. gen_eq models_base. Qed.
-
-(* transform.ConvertAltitudekeyToMinMaxZ = AltKeyCore.key2z *)
-Lemma gen_ConvertAltitudekeyToMinMaxZ_eq : forall k kz out E O,
-  Generated.ConvertAltitudekeyToMinMaxZ k kz out E O = enc_zz (key2z k kz out E O).
-Proof. gen_eq models_base. Qed.
-
-(* integrate.HorizontalZoomMinMax = ZoomCore.hzoom_minmax *)
-Lemma gen_HorizontalZoomMinMax_eq : forall zin x y zout,
-  Generated.HorizontalZoomMinMax zin x y zout = hzoom_minmax zin x y zout.
-Proof. gen_eq models_base. Qed.
-
-(* integrate.VerticalZoom, the bounds of its output loop = ZoomCore.vzoom_minmax *)
-Lemma gen_VerticalZoom_minmax_eq : forall zin f zout,
-  Generated.VerticalZoom_minmax zin f zout = vzoom_minmax zin f zout.
-Proof. gen_eq models_base. Qed.
-
-(* object.ExtendedSpatialID.Higher = ZoomCore.higher (receiver and result as field tuples, in the order of the Go struct) *)
-Lemma gen_ExtendedSpatialID_Higher_eq : forall h x y v f hd vd,
-  Generated.ExtendedSpatialID_Higher h x y v f hd vd = eid_tuple (higher (mk h x y v f) hd vd).
-Proof. gen_eq models_higher. Qed.
-Transparent Generated.CalculateArithmeticShift.
-
-(* ---------------------------------------------------------------------------------------------------------------- *)
-(* constants: the generated value is the literal the models and the property statements use *)
-
-Lemma gen_ZOriginValue_eq : Generated.ZOriginValue = zorigin. Proof. reflexivity. Qed.
-Lemma gen_ZBaseOffsetForNegativeFIndex_eq : Generated.ZBaseOffsetForNegativeFIndex = zbase_offset_neg. Proof. reflexivity. Qed.
-Lemma gen_ZBaseOffsetForNegativeFIndex_val : Generated.ZBaseOffsetForNegativeFIndex = 2 ^ 24. Proof. reflexivity. Qed.
-Lemma gen_MaxTileXYZZoom_eq : Generated.MaxTileXYZZoom = 35. Proof. reflexivity. Qed.
-Lemma gen_MaxTileXYZZoom_check_zoom : forall z, check_zoom z = (0 <=? z) && (z <=? Generated.MaxTileXYZZoom). Proof. reflexivity. Qed.
-Lemma gen_GeoCrs_eq : Generated.GeoCrs = 4326. Proof. reflexivity. Qed.
-Lemma gen_OrthCrs_eq : Generated.OrthCrs = 3857. Proof. reflexivity. Qed.
-Lemma gen_SpatialIDDelimiter_eq : Generated.SpatialIDDelimiter = cons 47 nil. Proof. reflexivity. Qed.   (* "/" *)
-Lemma gen_InnerID_eq : (Generated.InnerIDQuadkeyIndex, Generated.InnerIDAltitudekeyIndex) = (0, 1). Proof. reflexivity. Qed.
-(* floating-point constants are exact decimals (m, e) = m * 10^e *)
-Lemma gen_Minima_eq : Generated.Minima = (1, -10). Proof. reflexivity. Qed.
-Lemma gen_line_thresholds_eq :
-  (Generated.LonMinima, Generated.LatMinima, Generated.AltMinima) = ((2, -8), (2, -8), (3, -3)) /\
-  (Generated.HightZoomLonMinima, Generated.HightZoomLatMinima, Generated.HightZoomAltMinima) = ((5, -9), (5, -10), (5, -4)).
-Proof. split; reflexivity. Qed.
-Lemma gen_line_switches_eq : (Generated.LineSwitch_hZoom, Generated.LineSwitch_vZoom) = (31, 34). Proof. reflexivity. Qed.
-Lemma gen_SetLat_eq : Generated.SetLat_limit = (850511287798, -10) /\ Generated.SetLat_scale = 10 ^ 10. Proof. split; reflexivity. Qed.
-Lemma gen_QuadkeyZoom_eq :
-  (Generated.QuadkeyZoom_hZoom_min, Generated.QuadkeyZoom_hZoom_max, Generated.QuadkeyZoom_vZoom_min, Generated.QuadkeyZoom_vZoom_max) = (1, 31, 0, 35).
-Proof. reflexivity. Qed.
-
-(* ---------------------------------------------------------------------------------------------------------------- *)
-Print Assumptions gen_CalculateArithmeticShift_eq.
-Print Assumptions gen_CheckZoom_eq.
-Print Assumptions gen_quadkeyCheckZoom_eq.
-Print Assumptions gen_extendedSpatialIDCheckZoom_eq.
-Print Assumptions gen_validateIndexExists_eq.
-Print Assumptions gen_convertZToMinAltitudekey_eq.
-Print Assumptions gen_ConvertZToMinMaxAltitudekey_eq.
-Print Assumptions gen_ConvertAltitudekeyToMinMaxZ_eq.
-Print Assumptions gen_HorizontalZoomMinMax_eq.
-Print Assumptions gen_VerticalZoom_minmax_eq.
-Print Assumptions gen_ExtendedSpatialID_Higher_eq.
-Print Assumptions gen_ZOriginValue_eq.
-Print Assumptions gen_ZBaseOffsetForNegativeFIndex_eq.
-Print Assumptions gen_ZBaseOffsetForNegativeFIndex_val.
-Print Assumptions gen_MaxTileXYZZoom_eq.
-Print Assumptions gen_MaxTileXYZZoom_check_zoom.
-Print Assumptions gen_GeoCrs_eq.
-Print Assumptions gen_OrthCrs_eq.
-Print Assumptions gen_SpatialIDDelimiter_eq.
-Print Assumptions gen_InnerID_eq.
-Print Assumptions gen_Minima_eq.
-Print Assumptions gen_line_thresholds_eq.
-Print Assumptions gen_line_switches_eq.
-Print Assumptions gen_SetLat_eq.
-Print Assumptions gen_QuadkeyZoom_eq.
+(* GenEquiv.v — the second tie between model and source (DESIGN.md 4.2), split by kernel so that an edit of one Go kernel breaks only
+   the lemmas (and the property files) that depend on it: GenTac (tactic, CalculateArithmeticShift), GenEqCheck, GenEqAlt, GenEqZoom, GenEqHigher, GenEqConst. *)
+From SID Require Export GenTac GenEqCheck GenEqAlt GenEqZoom GenEqHigher GenEqConst.
